@@ -24,6 +24,9 @@ func NewInt128() *Int128 {
 
 // NewInt128 creates int128 with random value
 func RandomInt128() *Int128 {
+	if b := verifRandom(Int128Len); b != nil {
+		return &Int128{Int: big.NewInt(0).SetBytes(b)}
+	}
 	i := &Int128{Int: big.NewInt(0)}
 	i.SetBytes(dry.RandomBytes(Int128Len))
 	return i
@@ -65,6 +68,9 @@ func NewInt256() *Int256 {
 
 // NewInt256 creates int256 with random value
 func RandomInt256() *Int256 {
+	if b := verifRandom(Int256Len); b != nil {
+		return &Int256{Int: big.NewInt(0).SetBytes(b)}
+	}
 	i := &Int256{big.NewInt(0)}
 	i.SetBytes(dry.RandomBytes(Int256Len))
 	return i
